@@ -25,6 +25,8 @@ import (
 	"strings"
 	"sync"
 	"time"
+
+	"mellium.im/xmpp/verifharness/stall"
 )
 
 // Levels.
